@@ -124,3 +124,36 @@ META.update({
                 text="Exploration. The f32 and f64 instantiations run the same histories; every getter and returned count must agree at every step and every f32 output value must equal the rounded f64 value within K*eps32*peak (K = 16+L/2 sinc, 32 polynomial, 64+16*log2(FFT) FFT); least-squares gain within 32+L/8 eps32.",
                 note="K is a guard-banded figure: measured worst 11.6 (sinc), 3.3 (polynomial), 31 (FFT) eps32*peak on the repaired tree.", design="5/C17"),
 })
+
+PLANS.update({
+    "C05": {"stages": [st("rel", "chunk", 4000, 80000, death_prop="C03", floor={"frames_compared": 1000000})]},
+    "C06": {"stages": [st("chk", "warp", 40000, 800000, death_prop="C03", floor={"ramped_chunks": 1000, "spacings_checked": 1000000})]},
+    "C07": {"stages": [st("rel", "acct", 3000, 30000, death_prop="C03", floor={"process_calls": 1000000})]},
+    "C08": {"stages": [st("rel", "poly", 8000, 150000, death_prop="C03", floor={"frames_checked": 1000000})]},
+})
+RULES.update({
+    "C05": "case = one noise stream (2e3..4e4 input frames, constant ratio, optionally set once before the first call) run through two twins: two chunk sizes, FixedIn vs FixedOut, "
+           "a random set_chunk_size schedule vs constant size (sinc), or two FFT variants/(chunk, sub_chunks) pairs resolving to the same FFT block; common output prefix compared "
+           "to an accumulated-position-rounding bound (FFT: bit-exact); Nearest modes: frames whose quantised instants (from an index-signal run of both twins) differ by one grid step "
+           "are excluded and counted; trivial = the twin happened to be identical to the original",
+    "C06": "case = (asynchronous configuration, history with 20-50% ratio changes across the whole permitted interval, stepped and ramped, chunk-size changes, resets) fed with the index signal; "
+           "every output frame's evaluation instant is read off the output (sinc types: through the probing interpolator) and checked for monotonicity, spacing interval, immediate steps, monotone ramps, "
+           "contiguous supplied windows; trivial = no spacing could be checked (start-up only)",
+    "C07": "case = one constant-ratio stream of up to 3e5 (quick) / 2.5e6 (thorough) calls with allocate-time buffers, 35% of them with chunk size 1..4, optional set_chunk_size schedule, "
+           "optional ratio set once; the running totals are checked after every call",
+    "C08": "case = polynomial resampler + (polynomial of admissible degree in Chebyshev basis | degree+1 polynomial (sensitivity probe, no verdict) | sinusoid); instants measured by an index-signal twin run",
+})
+META.update({
+    "C05": dict(technique="runtime monitoring: differential twins over whole streams (two chunkings / variants / set_chunk_size schedules), rounding-bound oracle, bit-exact for FFT",
+                text="Exploration. The same noise stream is pushed through two instances that differ only in chunking or FixedIn/FixedOut/InOut variant; any lost, duplicated or stale frame changes the stream by O(1) against a tolerance of ~1e-6.",
+                note="Tolerance = worst-case accumulated position rounding x largest slope; Nearest-mode decision ambiguities are excluded frame by frame using measured instants, never whole cases.", design="5/C05"),
+    "C06": dict(technique="runtime monitoring: index-signal trace (every output value is its own evaluation instant) + probing SincInterpolator + reference model of the ratio schedule, online spacing checker",
+                text="Exploration. Output values of the index signal x[n]=n+1 are the evaluation instants; an online checker compares every spacing with [min(1/old,1/new), max(..)], demands strict monotonicity, immediate effect of stepped changes, monotone ramps and contiguous supplied input windows.",
+                note="Resolution 1e-9 or 256 ulp of the instant; start-up frames overlapping the zero pre-roll are skipped; partial calls are excluded (zero padding breaks the index signal).", design="5/C06"),
+    "C07": dict(technique="runtime monitoring: conservation check (running in/out totals) at every prefix of long constant-ratio streams, exact integer arithmetic for the synchronous types",
+                text="Exploration. After every call of streams up to millions of 1-frame chunks |out - r*in| is compared with the property's constant; synchronous types are checked with exact integers, FftFixedInOut block sizes against a gcd computation.",
+                note="Zero-valued input (counts do not depend on sample values).", design="5/C07"),
+    "C08": dict(technique="runtime monitoring: polynomial test signals evaluated at measured instants (index-signal twin), classical interpolation bounds for sinusoids",
+                text="Exploration. Polynomials of admissible degree must come out as P(instant) within 64-256 eps*max|P|; sinusoids within the classical Lagrange error bound; Nearest must return the sample at floor(instant).",
+                note="Instants are measured, not assumed; a uniform shift of all instants is C14's business, not C08's.", design="5/C08"),
+})
